@@ -115,7 +115,9 @@ def finish(prop, tier, seed, t0, b, results, spec):
             'traces_validated_against_impl': len(seen_jobs),
             'samples': [x for r in results for x in r['samples']][:8] or [{'tasks': [r['name'] for r in results]}],
             'explanation': spec.text,
-            'obligations': [dict(name=r['name'], status=r['status'], symbolic_paths=r['paths'], solver_queries=r['queries'],
+            'obligations': len(results),
+            'discharged': sum(1 for r in results if r['status'] == 'ok'),
+            'obligation_list': [dict(name=r['name'], status=r['status'], symbolic_paths=r['paths'], solver_queries=r['queries'],
                                  solver_s=round(r['solver_s'], 2), ir_steps=r['steps'], wall_s=round(r['wall_s'], 2),
                                  error=r.get('error')) for r in results],
             'functions_encoded': funcs[:60],
